@@ -920,6 +920,8 @@ impl Kademlia {
                 let key = record.key.clone();
                 let message: Bytes = KademliaMessage::put_value(record);
 
+                let mut failed_peers = Vec::new();
+
                 for peer in &peers {
                     if let Err(error) = self.open_substream_or_dial(
                         peer.peer,
@@ -934,6 +936,7 @@ impl Kademlia {
                             ?error,
                             "failed to put record to peer",
                         );
+                        failed_peers.push(peer.peer);
                     }
                 }
 
@@ -943,6 +946,12 @@ impl Kademlia {
                     peers.into_iter().map(|peer| peer.peer).collect(),
                     quorum,
                 );
+
+                // Nothing is pending for peers that could neither be reached nor dialed, so no
+                // later event would conclude them: register their failure now.
+                for peer in failed_peers {
+                    self.engine.register_send_failure(query, peer);
+                }
 
                 Ok(())
             }
@@ -974,6 +983,8 @@ impl Kademlia {
 
                 let message = KademliaMessage::add_provider(provided_key.clone(), provider);
 
+                let mut failed_peers = Vec::new();
+
                 for peer in &peers {
                     if let Err(error) = self.open_substream_or_dial(
                         peer.peer,
@@ -986,7 +997,8 @@ impl Kademlia {
                             ?provided_key,
                             ?error,
                             "failed to add provider record to peer",
-                        )
+                        );
+                        failed_peers.push(peer.peer);
                     }
                 }
 
@@ -996,6 +1008,12 @@ impl Kademlia {
                     peers.into_iter().map(|peer| peer.peer).collect(),
                     quorum,
                 );
+
+                // Nothing is pending for peers that could neither be reached nor dialed, so no
+                // later event would conclude them: register their failure now.
+                for peer in failed_peers {
+                    self.engine.register_send_failure(query, peer);
+                }
 
                 Ok(())
             }
